@@ -80,6 +80,7 @@ inductive FrameDef
   | join (l r : Nat) (on : OnForm) (how : String)
   | crossJoin (l r : Nat)
   | limit (src : Nat) (n : Nat)
+  | distinct (src : Nat)                         -- distinct() / dropDuplicates() without a subset
   deriving Repr, DecidableEq
 
 def Ref.colName : Ref â†’ Name
@@ -125,6 +126,7 @@ structure SDF where
   known : List Nat               -- frames whose join_on_uuid is in `known_uuids` (this frame and its copy-ancestors)
   display : List (Name Ã— Name)   -- display_name_mapping, newest first
   broken : Bool := false         -- the statement text no longer binds (the engine rejects it when it is finally run)
+  distinct : Bool := false       -- SELECT DISTINCT
   deriving Repr
 
 /-- what `_create_hash_from_expression` hashes: the open SELECT and the names of the CTEs in its WITH clause -/
@@ -136,6 +138,7 @@ structure CteContent where
   sel : List (Name Ã— Expr)
   wher : List Expr
   limit : Option Nat
+  distinct : Bool := false
   deriving Repr, DecidableEq
 
 /-- session-wide state: fresh ids, `name_to_sequence_id_mapping`, interned CTE names, scope hypotheses seen violated -/
@@ -251,7 +254,7 @@ def SDF.eval (d : SDF) : Option Table :=
     | none => none
     | some (src, scope) =>
       match qualifyAll scope d.wher, qualifyItems scope d.sel with
-      | some w, some s => some (evalBlock { wher := w, sel := s, limit := d.limit } src)
+      | some w, some s => some (evalBlock { wher := w, sel := s, limit := d.limit, distinct := d.distinct } src)
       | _, _ => none
 
 /-- `df.columns`: the select list's names through the display-name mapping -/
@@ -265,14 +268,14 @@ def SDF.wrap (s : Sess) (d : SDF) (seq : Option Nat) : Option (Sess Ã— SDF) :=
   | none => none
   | some T =>
     let content : CteContent := { withNames := d.ctes.map (fun c => (c.name, c.tag)), from_ := d.from_, leaf := d.leaf, joins := d.joins,
-                                  sel := d.sel, wher := d.wher, limit := d.limit }
+                                  sel := d.sel, wher := d.wher, limit := d.limit, distinct := d.distinct }
     let (s, name) : Sess Ã— Name := match s.interned.find? (fun x => x.1 = content) with
       | some x => (s, x.2)
       | none => ({ s with next := s.next + 1, interned := s.interned ++ [(content, cteName s.next)] }, cteName s.next)
     let cte : Cte := { name := name, branch := d.branch, seq := seq.getD d.seq, tbl := T }
     let s := s.flag (decide (Â¬ T.cols.Nodup)) "H_noDupNamesThroughWrap"
     some (s, { d with ctes := d.ctes ++ [cte], from_ := name, leaf := none, joins := [], sel := identSel T.cols,
-                      wher := [], limit := none, seq := seq.getD d.seq })
+                      wher := [], limit := none, distinct := false, seq := seq.getD d.seq })
 
 /-- `operation(op).wrapper` up to the call of the body: the frame the body sees and `new_op` -/
 def enterOp (s : Sess) (tag : Option Op) (d : SDF) : Option (Sess Ã— SDF Ã— Op) :=
@@ -816,6 +819,12 @@ def stepImpl (s : Sess) (frames : List SDF) (idx : Nat) : FrameDef â†’ Option (S
     | some d0 => match enterOp s tag_limit d0 with
       | none => none
       | some (s, d, new) => finish (some (s, { d with limit := some (mergeLimit n d.limit) })) new idx d0.known
+  | .distinct src =>
+    match frames[src]? with
+    | none => none
+    | some d0 => match enterOp s tag_distinct d0 with
+      | none => none
+      | some (s, d, new) => finish (some (s, { d with distinct := true })) new idx d0.known
   | .join l r on how =>
     match frames[l]?, frames[r]? with
     | some d0, some o => match enterOp s tag_join d0 with
@@ -1173,6 +1182,11 @@ def specFrameStep (frames : List SFrame) (idx : Nat) (fresh : Nat) : FrameDef â†
     | none => none
     | some F0 => let F := F0.vis
       some ({ F with cols := addTags idx F.cols, rows := F.rows.take n }, fresh)
+  | .distinct src =>
+    match frames[src]? with
+    | none => none
+    | some F0 => let F := F0.vis
+      some ({ F with cols := addTags idx F.cols, rows := dedup F.rows }, fresh)
   | .join l r on how =>
     match frames[l]?, frames[r]? with
     | some L, some R => (specJoin frames L.lift R.vis on how fresh).map (fun p => let F := p.1.unlift; ({ F with cols := addTags idx F.cols }, p.2))
